@@ -14,7 +14,7 @@ from ..report import Report, key_of
 from ..terms import dag_nodes, has_opaque, pretty
 from ..types import Ctx
 from .c05 import classify, persistent_data_classes
-from .common import TRUSTED_BASE, effects_of, inl, where
+from .common import TRUSTED_BASE, effects_of, inl, subst_single_assign, where
 
 WRITERS = {'numpy.save': 'npy', 'pickle.dump': 'pickle', 'yaml.dump': 'yaml', 'json.dump': 'stdjson'}
 READERS = {'numpy.load': 'npy', 'pickle.load': 'pickle', 'pandas.read_pickle': 'pdpickle', 'yaml.load': 'yaml', 'json.load': 'stdjson'}
@@ -69,6 +69,48 @@ def codecs(A, f, ci, depth=2):
         for nf in list(g.nested.values()) + g.lambdas:
             todo.append((nf, recv))
     return w, r, modes
+
+
+def check_index_order(A, R: Report, rid: str):
+    """ListOfNumpyData: items written under their enumerate index are read back in numeric index order."""
+    ln = A.cls('ListOfNumpyData')
+    fs, fl = ln.lookup('save'), ln.lookup('load')
+    # writer: np.save(<dir>/<index>.npy) inside a loop over enumerate(...)
+    saves = [n for n in inl(A, fs) if isinstance(n, ast.Call) and src(n.func).split('.')[-1] == 'save' and n.args and not (isinstance(n.func, ast.Attribute) and src(n.func.value) in ('self', 'super()'))]
+    enum_loops = [n for n in inl(A, fs) if isinstance(n, ast.For) and isinstance(n.iter, ast.Call) and src(n.iter.func) == 'enumerate']
+    by_index = bool(enum_loops) and any(any(x is sv_ for x in ast.walk(lp)) for lp in enum_loops for sv_ in saves)
+    padded = any(isinstance(n, ast.FormattedValue) and n.format_spec is not None for n in inl(A, fs))
+    lt = A.sym.func_term(fl, ('inst', ln))
+    sorts = [x for x in dag_nodes(lt) if x[0] == 'sorted']
+    globs = [x for x in dag_nodes(lt) if x[0] == 'method' and x[2] in ('glob', 'iterdir', 'rglob')] + [x for x in dag_nodes(lt) if x[0] == 'call' and x[1].split('.')[-1] in ('listdir', 'scandir', 'glob')]
+
+    def numeric_key(k):
+        """the sort key is int(<something derived from the file name>)"""
+        body = var = None
+        if k[0] == 'lam' and len(k[1]) == 1:
+            var, body = k[1][0], k[2]
+        elif k[0] in ('attr', 'global') and (ln.lookup(k[-1]) is not None or A.prog.find_func(k[-1]) is not None):
+            kf = ln.lookup(k[-1]) or A.prog.find_func(k[-1])
+            recv = ('inst', ln) if (kf.cls is not None and not kf.is_static) else None
+            ps = [p_ for p_ in kf.params if not (recv and p_ == kf.params[0])]
+            if len(ps) == 1:
+                var, body = ('p', ps[0]), A.sym.func_term(kf, recv)
+        if body is None:
+            return None
+        return body[0] == 'call' and body[1] == 'int' and any(x[0] == 'attr' and x[1] == var and x[2] in ('name', 'stem') for x in dag_nodes(body))
+
+    verdicts = [numeric_key(s_[2]) if s_[2] != ('lit', None) else False for s_ in sorts]
+    numeric = bool(sorts) and all(v is True for v in verdicts)
+    unordered_glob = bool(globs) and not all(any(g in dag_nodes(s_[1]) for s_ in sorts) for g in globs)
+    if by_index and (has_opaque(lt) or any(v is None for v in verdicts)) and not numeric:
+        R.undecided(rid, 'ListOfNumpyData: save/load order', 'reader ordering could not be evaluated symbolically', where=where(fl))
+    elif by_index:
+        # zero padding only postpones the problem (index 100 with width 2): the reader must order numerically
+        ok = numeric and not unordered_glob
+        R.check(ok, rid, 'ListOfNumpyData: save/load order', key_of('order', numeric, padded, bool(sorts), unordered_glob), 'numeric sort of index-named files',
+                'files are named by unpadded index but not read back in numeric order (10.npy sorts before 2.npy, or directory order is arbitrary)', witness=[pretty(lt)[:300]], where=where(fl))
+    else:
+        R.undecided(rid, 'ListOfNumpyData: save/load order', 'writer naming idiom not recognised', where=where(fs))
 
 
 def run(A, R: Report, thorough: bool):
@@ -132,6 +174,22 @@ def run(A, R: Report, thorough: bool):
     wterms = [t for n in writes for t in wat.get(id(n), [])]
     # every written record is <json text> followed by exactly one line break
     newline = bool(wterms) and all(t[0] == 'cat' and t[1][-1] == ('lit', '\n') and len(t[1]) == 2 and 'dumps' in pretty(t[1][0]) for t in wterms)
+    # the reader cuts records exactly where the writer put its separator: by iterating the file object (universal newlines
+    # = \n, \r, \r\n only); str.splitlines() also cuts at \x0b \x0c \x1c-\x1e \x85 \u2028 \u2029, which the writer leaves unescaped inside strings
+    handles = {item.optional_vars.id for n in A.typer.own_nodes(ij) if isinstance(n, (ast.With, ast.AsyncWith)) for item in n.items if isinstance(item.optional_vars, ast.Name)}
+    rec_src = None
+    for lp in [n for n in A.typer.own_nodes(ij) if isinstance(n, ast.For)]:
+        it = subst_single_assign(A, ij, lp.iter)
+        while isinstance(it, ast.Call) and src(it.func).split('.')[-1] in ('progress_bar', 'tqdm', 'iter', 'enumerate') and it.args:
+            it = subst_single_assign(A, ij, it.args[0])
+        rec_src = src(it)
+        if isinstance(it, ast.Name) and it.id in handles:
+            R.ok('R06.1', 'iter_json_file: records', 'one record per line of the file object', where=where(ij, lp))
+        elif any(isinstance(x, ast.Call) and isinstance(x.func, ast.Attribute) and x.func.attr in ('splitlines', 'split', 'readlines') and x.func.attr != 'readlines' for x in ast.walk(it)):
+            R.violation('R06.1', 'iter_json_file: records', key_of('record-split', rec_src[:60]), f'records are cut with `{rec_src[:60]}`: it also splits at characters the writer leaves unescaped inside strings (\\u2028, \\x85, ...), so such a record is torn in two and cannot be loaded',
+                        where=where(ij, lp))
+        else:
+            R.undecided('R06.1', 'iter_json_file: records', f'how records are separated is not recognised (`{rec_src[:60]}`)', where=where(ij, lp))
     R.check(same_mod and encw == encr and newline, 'R06.1', 'write_jsons / iter_json_file', key_of('jsonl', sorted(wt), sorted(rt), encw, encr, newline),
             'same json module, same encoding, one item per line', f'json-lines writer {sorted(wt)} enc {encw} newline={newline} vs reader {sorted(rt)} enc {encr}', where=where(wj))
 
@@ -223,46 +281,14 @@ def run(A, R: Report, thorough: bool):
         if n_pass == 0:
             R.ok('R06.6', f'{ci.short}.save', 'the value is serialised through its own method / element-wise', where=where(fsave))
 
+    # ---- R06.7 what is stored under a location is the last computed value, nothing of an earlier one
+    from .c05 import check_move_replaces
+    R.rule('R06.7', 'a directory result is replaced as a whole: the stored directory is removed before the recomputed one is moved into place', floor=1)
+    check_move_replaces(A, R, 'R06.7', persistent_data_classes(A))
+
     # ---- R06.4
     R.rule('R06.4', 'items named by enumerate index are read back in numeric order; generated sequences are materialised as lists on both sides', floor=2)
-    ln = A.cls('ListOfNumpyData')
-    fs, fl = ln.lookup('save'), ln.lookup('load')
-    # writer: np.save(<dir>/<index>.npy) inside a loop over enumerate(...)
-    saves = [n for n in inl(A, fs) if isinstance(n, ast.Call) and src(n.func).split('.')[-1] == 'save' and n.args and not (isinstance(n.func, ast.Attribute) and src(n.func.value) in ('self', 'super()'))]
-    enum_loops = [n for n in inl(A, fs) if isinstance(n, ast.For) and isinstance(n.iter, ast.Call) and src(n.iter.func) == 'enumerate']
-    by_index = bool(enum_loops) and any(any(x is sv_ for x in ast.walk(lp)) for lp in enum_loops for sv_ in saves)
-    padded = any(isinstance(n, ast.FormattedValue) and n.format_spec is not None for n in inl(A, fs))
-    lt = A.sym.func_term(fl, ('inst', ln))
-    sorts = [x for x in dag_nodes(lt) if x[0] == 'sorted']
-    globs = [x for x in dag_nodes(lt) if x[0] == 'method' and x[2] in ('glob', 'iterdir', 'rglob')] + [x for x in dag_nodes(lt) if x[0] == 'call' and x[1].split('.')[-1] in ('listdir', 'scandir', 'glob')]
-
-    def numeric_key(k):
-        """the sort key is int(<something derived from the file name>)"""
-        body = var = None
-        if k[0] == 'lam' and len(k[1]) == 1:
-            var, body = k[1][0], k[2]
-        elif k[0] in ('attr', 'global') and (ln.lookup(k[-1]) is not None or A.prog.find_func(k[-1]) is not None):
-            kf = ln.lookup(k[-1]) or A.prog.find_func(k[-1])
-            recv = ('inst', ln) if (kf.cls is not None and not kf.is_static) else None
-            ps = [p_ for p_ in kf.params if not (recv and p_ == kf.params[0])]
-            if len(ps) == 1:
-                var, body = ('p', ps[0]), A.sym.func_term(kf, recv)
-        if body is None:
-            return None
-        return body[0] == 'call' and body[1] == 'int' and any(x[0] == 'attr' and x[1] == var and x[2] in ('name', 'stem') for x in dag_nodes(body))
-
-    verdicts = [numeric_key(s_[2]) if s_[2] != ('lit', None) else False for s_ in sorts]
-    numeric = bool(sorts) and all(v is True for v in verdicts)
-    unordered_glob = bool(globs) and not all(any(g in dag_nodes(s_[1]) for s_ in sorts) for g in globs)
-    if by_index and (has_opaque(lt) or any(v is None for v in verdicts)) and not numeric:
-        R.undecided('R06.4', 'ListOfNumpyData: save/load order', 'reader ordering could not be evaluated symbolically', where=where(fl))
-    elif by_index:
-        # zero padding only postpones the problem (index 100 with width 2): the reader must order numerically
-        ok = numeric and not unordered_glob
-        R.check(ok, 'R06.4', 'ListOfNumpyData: save/load order', key_of('order', numeric, padded, bool(sorts), unordered_glob), 'numeric sort of index-named files',
-                'files are named by unpadded index but not read back in numeric order (10.npy sorts before 2.npy, or directory order is arbitrary)', witness=[pretty(lt)[:300]], where=where(fl))
-    else:
-        R.undecided('R06.4', 'ListOfNumpyData: save/load order', 'writer naming idiom not recognised', where=where(fs))
+    check_index_order(A, R, 'R06.4')
     gd = A.cls('GeneratedData')
     sv = gd.lookup('set_value')
     ld = gd.lookup('load')
